@@ -227,7 +227,7 @@ def main(argv):
 
 def lemma_base(prop, tier):
     """state of the Lean lemma base the sum normaliser relies on: the committed STAMP must match the lemma file; the
-    thorough tier of the properties that instantiate the lemmas (C01, C05) re-runs Lean on it"""
+    thorough tier of the properties that rely on the lemmas (C01, C05, C16) re-runs Lean on it"""
     import hashlib
     import subprocess
     d = os.path.join(HERE, 'lemmas')
@@ -237,7 +237,7 @@ def lemma_base(prop, tier):
         out = dict(file='lemmas/SumLemmas.lean', sha256=sha, stamp_matches=bool(stamp) and stamp[0] == sha)
     except Exception as e:
         return dict(error=str(e))
-    if tier == 'thorough' and prop in ('C01', 'C05'):
+    if tier == 'thorough' and prop in ('C01', 'C05', 'C16'):
         try:
             r = subprocess.run([os.path.join(HERE, 'tools', 'check_lemmas.sh')], capture_output=True, text=True, timeout=1500)
             out['lean_recheck'] = 'ok' if r.returncode == 0 else 'FAILED: ' + (r.stdout + r.stderr)[-300:]
